@@ -261,3 +261,24 @@ pub fn cram_reseal(b: &mut [u8]) -> usize {
     }
     fixed
 }
+
+/// An uncompressed BAM stream with `k` NUL bytes of padding appended to its header text (`l_text`
+/// grows by `k`): SAMv1 §4.2 lets the text be NUL padded; noodles' writer never does it, its reader
+/// has a branch for it. `None` when the stream does not start like BAM.
+pub fn bam_with_padded_header(stream: &[u8], k: usize) -> Option<Vec<u8>> {
+    if stream.len() < 12 || &stream[..4] != b"BAM\x01" {
+        return None;
+    }
+    let l_text = u32::from_le_bytes([stream[4], stream[5], stream[6], stream[7]]) as usize;
+    let end = 8usize.checked_add(l_text)?;
+    if end > stream.len() {
+        return None;
+    }
+    let mut v = Vec::with_capacity(stream.len() + k);
+    v.extend_from_slice(&stream[..4]);
+    v.extend_from_slice(&((l_text + k) as u32).to_le_bytes());
+    v.extend_from_slice(&stream[8..end]);
+    v.extend(std::iter::repeat(0u8).take(k));
+    v.extend_from_slice(&stream[end..]);
+    Some(v)
+}
